@@ -64,14 +64,17 @@ func (r *newRevisionReconciler) Reconcile(ctx context.Context,
 		"collisionRev", conflictingObjectSet.GetRevision(),
 		"latestRev", latestRevisionNumber)
 	controllerRef := metav1.GetControllerOf(conflictingObjectSet.ClientObject())
+	// A conflicting ObjectSet that does not report .status.revision yet (== 0) has just been created and
+	// was not reconciled by its own controller so far. It must not be compared against the latest revision:
+	// like for every other ObjectSet under management, we delay any action until it reports its revision.
 	if !conflictingObjectSet.IsArchived() &&
-		conflictingObjectSet.GetRevision() >= latestRevisionNumber &&
+		(conflictingObjectSet.GetRevision() == 0 || conflictingObjectSet.GetRevision() >= latestRevisionNumber) &&
 		controllerRef != nil &&
 		controllerRef.UID == objectDeployment.ClientObject().GetUID() &&
 		equality.Semantic.DeepEqual(newObjectSet.GetTemplateSpec(), conflictingObjectSet.GetTemplateSpec()) {
 		// This ObjectDeployment is controller of the conflicting ObjectSet and the ObjectSet is deep equal to the
 		// desired new ObjectSet. So no conflict :) This case can happen if the local cache is a little bit slow to
-		// record the ObjectSet Create event.
+		// record the ObjectSet Create event, or if the ObjectSet controller did not yet assign a revision number.
 		log.Info("Slow cache, no collision")
 		return ctrl.Result{}, nil
 	}
